@@ -5,7 +5,9 @@ WT="$1"; TIER="$2"; shift 2
 HERE=$(cd "$(dirname "$0")/.." && pwd)
 OUT=$(mktemp -d /tmp/seedtest.XXXXXX)
 for c in "$@"; do
-  VERIF_REPO="$WT" VERIF_OUT="$OUT" "$HERE/run.sh" "$c" "$TIER" 2>&1 | grep -E "^(VIOLATION|KNOWN-FINDING|HARNESS-ERROR|C[0-9]+ |  what)" | cut -c1-260 | head -12
-  echo "   -> $c exit=$?"
+  VERIF_REPO="$WT" VERIF_OUT="$OUT" "$HERE/run.sh" "$c" "$TIER" >"$OUT/log" 2>&1
+  code=$?
+  grep -E "^(VIOLATION|KNOWN-FINDING|HARNESS-ERROR|C[0-9]+ |  what)" "$OUT/log" | cut -c1-260 | head -12
+  echo "   -> $c exit=$code"
 done
 rm -rf "$OUT"
